@@ -5,9 +5,9 @@ W="$1"; CRATE="$2"; shift 2
 export CARGO_NET_OFFLINE=true CARGO_TARGET_DIR="$W/target"
 cd "$W" || exit 2
 echo "## with change: crate tests"; cargo test --offline -p "$CRATE" "$@" 2>&1 | grep -E '^test result|FAILED|error(\[|:)' | head -8
-echo "## with change: demo"; (cd demo && RUSTFLAGS="${DEMO_RUSTFLAGS:-}" cargo test --offline 2>&1 | grep -E '^test result|error(\[|:)' | head -6)
+echo "## with change: demo"; (cd demo && RUSTFLAGS="${DEMO_RUSTFLAGS:-}" cargo test --offline --release 2>&1 | grep -E '^test result|error(\[|:)' | head -6)
 # (git stash is shared between worktrees: use the patch itself)
 git diff -- crates > "$W/.seed.patch"; git apply -R "$W/.seed.patch" || exit 2
-echo "## WITHOUT change: demo"; (cd demo && RUSTFLAGS="${DEMO_RUSTFLAGS:-}" cargo test --offline 2>&1 | grep -E '^test result|error(\[|:)' | head -6)
+echo "## WITHOUT change: demo"; (cd demo && RUSTFLAGS="${DEMO_RUSTFLAGS:-}" cargo test --offline --release 2>&1 | grep -E '^test result|error(\[|:)' | head -6)
 git apply "$W/.seed.patch"
 git diff --stat -- crates | tail -2
